@@ -119,7 +119,7 @@ def write(handle:IO, anno:GenomicAnnotation) -> None:
             handle.write(record + '\n')
             records = tx_model.cds + tx_model.exon
             records.sort()
-            records.extend(tx_model.utr)
+            records.extend(tx_model.utr or tx_model.five_utr + tx_model.three_utr)
             records = tx_model.selenocysteine + records
             for record in records:
                 handle.write(to_gtf_record(record) + '\n')
